@@ -645,6 +645,30 @@ join_driver(P + "semi_join[key named differently]", "semi", renamed=True)
 join_driver(P + "full_join[bounded only]", "full")
 
 
+@driver(P + "full_join[mixed key list: a plain name before a (left, right) pair]")
+def full_join_mixed_keys(run):
+    """by = ("y", ("k", "k2")): every left and right row once, right-only rows keep their key under the LEFT name, no stray right key column"""
+    run.bound = "frames of <= 2 (thorough 3) rows, keys y in {0,1} x k in {0,1}, right key named k2"
+    mr = 3 if run.tier == "thorough" else 2
+    vals = [(0, 0), (0, 1), (1, 0)]
+    gen = ((list(a), list(b)) for n1 in range(mr + 1) for n2 in range(mr + 1) for a in itertools.product(range(3), repeat=n1) for b in itertools.product(range(3), repeat=n2))
+    for ia, ib in run.inputs(gen):
+        a = DataFrame(y=Vector([vals[i][0] for i in ia], int), k=Vector([vals[i][1] for i in ia], int), x=Vector([10 + t for t in range(len(ia))], int))
+        b = DataFrame(y=Vector([vals[i][0] for i in ib], int), k2=Vector([vals[i][1] for i in ib], int), z=Vector([100 + t for t in range(len(ib))], int))
+        try:
+            got = a.full_join(b, "y", ("k", "k2"))
+            ok = "k2" not in got.colnames and {"y", "k", "x", "z"} <= set(got.colnames)
+            rows = [tuple(got[c][t] for c in ("y", "k", "x", "z")) for t in range(got.nrow)] if ok else []
+            for t in range(len(ia)):      # every left row, with its own key
+                ok = ok and any(r[2] == 10 + t and (r[0], r[1]) == vals[ia[t]] for r in rows)
+            for t in range(len(ib)):      # every right row, with its key under the left names
+                ok = ok and any((not is_missing(r[3])) and r[3] == 100 + t and (r[0], r[1]) == vals[ib[t]] for r in rows)
+            obs = {c: list(got[c]) for c in got.colnames}
+        except Exception as e:
+            ok, obs = False, f"raised {type(e).__name__}: {e}"
+        run.check([ia, ib], ok, expected="every row of both sides with its key under the left names", got=obs, clause="full_join with mixed keys")
+
+
 # ---- C03: sort ---------------------------------------------------------------------------------------
 SORT_POOLS = {"int": [0, 1, -2 ** 63], "float": [0.5, NAN, -0.5], "str": ["", "a", "b" * 50, "\U0001F600"], "bool": [True, False],
               "date": POOLS["date"] + [np.datetime64("2021-05-05")], "obj": [None, 1, 2], "fix": ["", "a", "b"]}
